@@ -333,11 +333,16 @@ def load_modules(flavour, repo):
     return out
 
 
-def run_calls(calls, mods, budget=None):
+def run_calls(calls, mods, budget=None, progress=None):
     """Execute the calls; returns list of ('ok', result, [in-place arrays]) or ('error', text).
-    budget: optional line-event budget per call (deterministic non-termination verdict for interpreted code)."""
+    budget: optional line-event budget per call (deterministic non-termination verdict for interpreted code).
+    progress: optional path; the index and name of the call about to run is written there first, so that the parent can
+    tell which call a compiled kernel was in when it took the whole interpreter down."""
     res = []
-    for key, fn, args, outs in calls:
+    for idx, (key, fn, args, outs) in enumerate(calls):
+        if progress:
+            with open(progress, "w") as pf:
+                pf.write("%d %s.%s" % (idx, key, fn))
         mod = mods.get(key)
         if isinstance(mod, Exception) or mod is None:
             res.append(("missing-module", repr(mod)))
@@ -378,7 +383,8 @@ def main(argv):
         exported = {k: sorted(n for n in dir(m) if not n.startswith("_") and callable(getattr(m, n)))
                     for k, m in mods.items() if not isinstance(m, Exception)}
         with open(argv[3], "wb") as f:
-            pickle.dump({"results": run_calls(calls, mods, budget), "files": files, "exported": exported}, f)
+            pickle.dump({"results": run_calls(calls, mods, budget, argv[3] + ".progress"), "files": files,
+                         "exported": exported}, f)
         return 0
     print(__doc__)
     return 0
